@@ -72,7 +72,17 @@ pub struct Search {
     pub capped: bool,
     pub started: bool,
     /// Called after each execution with the search state; returns true to stop.
-    pub shard: Option<(u64, u64)>,
+    /// Cost of picking a non-default task when the default is not a
+    /// preemption (the last task blocked, finished or went to sleep). 0 means
+    /// all non-preemptive schedules are explored at every bound (CHESS); 1
+    /// makes every departure from the default schedule a deviation, which keeps
+    /// the search finite for long-running programs.
+    pub free_alt_cost: u8,
+    /// Consecutive scheduling points given to `last_real`.
+    pub run_length: u32,
+    /// Time slice: after this many consecutive points the running task is
+    /// treated as if it had yielded, so that the default schedule is fair.
+    pub quantum: u32,
 }
 
 impl Search {
@@ -102,7 +112,9 @@ impl Search {
             max_executions: u64::MAX,
             capped: false,
             started: false,
-            shard: None,
+            free_alt_cost: 0,
+            run_length: 0,
+            quantum: 100,
         }
     }
 
@@ -200,6 +212,7 @@ impl Scheduler for BoundedDfs {
         s.trace.clear();
         s.cost = 0;
         s.last_real = None;
+        s.run_length = 0;
         s.tick_free = false;
         s.idle_ticks = 0;
         s.last_progress = 0;
@@ -226,11 +239,11 @@ impl Scheduler for BoundedDfs {
         s.steps += 1;
         if s.steps > s.step_cap {
             s.status = Status::StepCap;
-            return None;
-        }
-        if ABORT.load(Ordering::SeqCst) {
-            s.status = Status::Aborted;
-            return None;
+            fatal(
+                "step-horizon",
+                &format!("execution exceeded {} scheduling points", s.step_cap),
+                s.choices(),
+            );
         }
         if s.machinery_error.is_some() {
             return None;
@@ -246,7 +259,10 @@ impl Scheduler for BoundedDfs {
         }
         let w = rustradio::vsync::timed_waiter_count();
         let done = DONE.load(Ordering::SeqCst);
-        let slept = rustradio::vsync::SLEEP_HINT.swap(false, Ordering::SeqCst);
+        let mut slept = rustradio::vsync::SLEEP_HINT.swap(false, Ordering::SeqCst);
+        if s.run_length >= s.quantum {
+            slept = true;
+        }
         if real.is_empty() {
             if done {
                 return Some(clock);
@@ -262,13 +278,17 @@ impl Scheduler for BoundedDfs {
                 }
                 if s.idle_ticks as usize > 4 * (s.max_task + 1) + 8 {
                     s.status = Status::Livelock;
-                    return None;
+                    fatal(
+                        "livelock",
+                        "only timeouts fire, with no stream activity or other progress",
+                        s.choices(),
+                    );
                 }
                 s.tick_free = true;
                 return Some(clock);
             }
             s.status = Status::Deadlock;
-            return None;
+            fatal("deadlock", "no task enabled and no timed waiter", s.choices());
         }
         let mut opts: Vec<(TaskId, u8)> = Vec::with_capacity(real.len() + 1);
         if slept {
@@ -276,11 +296,13 @@ impl Scheduler for BoundedDfs {
             let sleeper = s.last_real;
             for t in &real {
                 if Some(*t) != sleeper {
-                    opts.push((*t, 0));
+                    let c = if opts.is_empty() { 0 } else { s.free_alt_cost };
+                    opts.push((*t, c));
                 }
             }
             if let Some(t) = sleeper.filter(|t| real.contains(t)) {
-                opts.push((t, 0));
+                let c = if opts.is_empty() { 0 } else { s.free_alt_cost };
+                opts.push((t, c));
             }
         } else {
             let lr = s.last_real.filter(|t| real.contains(t));
@@ -289,7 +311,14 @@ impl Scheduler for BoundedDfs {
             }
             for t in &real {
                 if Some(*t) != lr {
-                    opts.push((*t, if lr.is_some() { 1 } else { 0 }));
+                    let c = if lr.is_some() {
+                        1
+                    } else if opts.is_empty() {
+                        0
+                    } else {
+                        s.free_alt_cost
+                    };
+                    opts.push((*t, c));
                 }
             }
         }
@@ -306,6 +335,11 @@ impl Scheduler for BoundedDfs {
         if t == clock {
             s.tick_free = false;
         } else {
+            if s.last_real == Some(t) {
+                s.run_length += 1;
+            } else {
+                s.run_length = 0;
+            }
             s.last_real = Some(t);
         }
         Some(t)
@@ -317,7 +351,8 @@ impl Scheduler for BoundedDfs {
         if s.tick_free || w <= 1 {
             return 0;
         }
-        let costs = vec![0u8; w];
+        let mut costs = vec![s.free_alt_cost; w];
+        costs[0] = 0;
         s.decide(&costs) as u64
     }
 }
@@ -349,101 +384,91 @@ pub struct Explored {
     pub max_steps: u64,
     pub max_points: usize,
     pub capped: bool,
-    /// (kind, message, choices)
-    pub failure: Option<(String, String, Vec<u32>)>,
     pub machinery_error: Option<String>,
 }
 
 thread_local! {
-    /// Violation recorded by scenario code during the current execution.
-    pub static VIOLATION: RefCell<Option<(String, String)>> = const { RefCell::new(None) };
+    static CURRENT: RefCell<Option<Rc<RefCell<Search>>>> = const { RefCell::new(None) };
 }
 
-/// Record a violation from scenario code. First one wins.
-pub fn violate(kind: &str, msg: String) {
-    VIOLATION.with(|v| {
-        let mut v = v.borrow_mut();
-        if v.is_none() {
-            *v = Some((kind.to_string(), msg));
+/// What to do when a violation is found: gets (kind, message, choices) and
+/// must not return. Set by main.
+pub static ON_FATAL: std::sync::Mutex<Option<Box<dyn Fn(&str, &str, Vec<u32>) + Send>>> =
+    std::sync::Mutex::new(None);
+
+/// Report a violation and leave the process, without unwinding through the
+/// scheduler runtime (tearing down half-finished tasks is not worth trusting).
+pub fn fatal(kind: &str, msg: &str, choices: Vec<u32>) -> ! {
+    let f = ON_FATAL.lock().unwrap_or_else(|e| e.into_inner());
+    if let Some(f) = f.as_ref() {
+        f(kind, msg, choices);
+    }
+    eprintln!("fatal without handler: [{kind}] {msg}");
+    std::process::exit(3);
+}
+
+/// Choices of the execution in progress. None if the search state is busy
+/// (then we are inside the scheduler: a machinery fault).
+pub fn current_choices() -> Option<Vec<u32>> {
+    CURRENT.with(|c| {
+        let c = c.borrow();
+        let s = c.as_ref()?;
+        let s = s.try_borrow().ok()?;
+        Some(s.choices())
+    })
+}
+
+/// Record a violation from scenario code.
+pub fn violate(kind: &str, msg: String) -> ! {
+    match current_choices() {
+        Some(c) => fatal(kind, &msg, c),
+        None => {
+            eprintln!("machinery error: violation [{kind}] {msg} raised inside the scheduler");
+            std::process::exit(3);
         }
-    });
-    ABORT.store(true, Ordering::SeqCst);
+    }
 }
 
 /// Explore `scenario` under the given deviation bound. If `replay` is given,
-/// run exactly that one execution.
-pub fn explore<F>(bound: u32, replay: Option<Vec<u32>>, max_executions: u64, scenario: F) -> Explored
+/// run exactly that one execution. Violations do not return (see `fatal`).
+pub fn explore<F>(
+    bound: u32,
+    free_alt_cost: u8,
+    replay: Option<Vec<u32>>,
+    max_executions: u64,
+    scenario: F,
+) -> Explored
 where
     F: Fn() + Send + Sync + 'static,
 {
     let mut search = Search::new(bound);
     search.max_executions = max_executions;
+    search.free_alt_cost = free_alt_cost;
     if let Some(p) = replay {
         search.prefix = p;
         search.single = true;
         search.bound = u32::MAX;
     }
     let shared = Rc::new(RefCell::new(search));
+    CURRENT.with(|c| *c.borrow_mut() = Some(shared.clone()));
     let sched = BoundedDfs(shared.clone());
     let mut config = shuttle::Config::new();
     config.max_steps = shuttle::MaxSteps::None;
     config.failure_persistence = shuttle::FailurePersistence::None;
     config.silence_warnings = true;
     config.stack_size = 0x40000;
-    VIOLATION.with(|v| *v.borrow_mut() = None);
-    let shared2 = shared.clone();
-    let _ = shared2;
     let runner = shuttle::Runner::new(sched, config);
-    let r = std::panic::catch_unwind(std::panic::AssertUnwindSafe(|| {
-        runner.run(move || {
-            scenario();
-        })
-    }));
+    runner.run(move || {
+        scenario();
+    });
+    CURRENT.with(|c| *c.borrow_mut() = None);
     let mut s = shared.borrow_mut();
-    // Account for the last execution if the runner was torn down by a panic.
-    let mut failure = None;
-    let recorded = VIOLATION.with(|v| v.borrow_mut().take());
-    if let Some((kind, msg)) = recorded {
-        failure = Some((kind, msg, s.choices()));
-    } else if let Err(e) = r {
-        let msg = vcommon::panic_msg(&e);
-        failure = Some(("panic".to_string(), msg, s.choices()));
-    } else {
-        match s.status {
-            Status::Deadlock => {
-                failure = Some((
-                    "deadlock".into(),
-                    "no task enabled and no timed waiter".into(),
-                    s.choices(),
-                ))
-            }
-            Status::Livelock => {
-                failure = Some((
-                    "livelock".into(),
-                    "only timeouts fire, with no stream activity or other progress".into(),
-                    s.choices(),
-                ))
-            }
-            Status::StepCap => {
-                failure = Some((
-                    "step-horizon".into(),
-                    format!("execution exceeded {} scheduling points", s.step_cap),
-                    s.choices(),
-                ))
-            }
-            _ => {}
-        }
-    }
-    if s.started && s.total_steps == 0 {
-        s.total_steps = s.steps;
-    }
     Explored {
         executions: s.executions,
-        steps: s.total_steps.max(s.steps),
-        max_steps: s.max_steps_seen.max(s.steps),
-        max_points: s.max_points.max(s.trace.len()),
+        steps: s.total_steps,
+        max_steps: s.max_steps_seen,
+        max_points: s.max_points,
         capped: s.capped,
-        failure,
         machinery_error: s.machinery_error.take(),
     }
 }
